@@ -48,7 +48,8 @@ RhInverse == \A es \in {R(7), Frac(611, 2)}, p \in {R(1000), R(50)} :
 \* blend logic with stand-in saturation values ice < liq
 Tt == Frac(27316, 100)
 BlendTs == {Sub(Tt, R(24)), Sub(Tt, R(23)), Sub(Tt, Frac(23, 2)), Tt, Add(Tt, R(1)), Sub(Tt, Frac(2299, 100)), Sub(Tt, Frac(1, 100)),
-            R(200), R(251), R(260), R(273), R(300)}          \* whole kelvins: temperatures that an INTEGER array can hold
+            R(200), R(251), R(260), R(273), R(300),
+            Sub(Tt, Frac(23005, 1000)), Sub(Tt, Frac(22995, 1000))}          \* 5 mK on either side of the lower joint          \* whole kelvins: temperatures that an INTEGER array can hold
 BlendLogic == \A T \in BlendTs : LET ice == R(3) liq == R(5) mx == Mixed(T, Tt, ice, liq)
                                 IN /\ Le(ice, mx) /\ Le(mx, liq)
                                    /\ (Lt(T, Sub(Tt, R(23))) => mx = ice) /\ (Lt(Tt, T) => mx = liq)
